@@ -170,7 +170,7 @@ func init() {
 		Property:       "C05",
 		Parts:          []simkit.Part{{Name: "schemasim-c05", Fn: schemasim.Walk("C05"), Runs: map[string]int{"quick": 3000, "thorough": 120000}}},
 		Rule:           walkRule + "; oracle: row count and the multiset of rows projected on the columns that keep name and declared type, per table, across every successful apply; whole-database identity across every failed apply in a transaction",
-		RequiredProbes: []string{"successful-apply", "populated-table-checked/alter", "populated-table-checked/rebuild", "failed-apply-rolled-back", "row-inserted"},
+		RequiredProbes: []string{"successful-apply", "populated-table-checked/alter", "populated-table-checked/rebuild", "failed-apply-rolled-back", "row-inserted", "child-row-references-parent-row"},
 		RequiredFaults: []string{"statement-error", "connection-abandoned"},
 		Real:           walkReal, Stub: walkStub, Assumptions: append([]string{"a nullable column that becomes NOT NULL cannot keep its NULLs: such a column is compared only if it held none", "rows are matched as multisets (every generated cell value is unique), not by rowid"}, walkAssume...),
 		SimTimeUnit: "reconciliation steps",
